@@ -49,6 +49,10 @@ V(n)          == [k |-> "retv", n |-> n, sub |-> "", arms |-> <<>>, els |-> <<>>
 E(n)          == [k |-> "err",  n |-> n, sub |-> "", arms |-> <<>>, els |-> <<>>]
 A(n, c, body) == [n |-> n, c |-> c, body |-> body]
 I(arms, els)  == [k |-> "if",   n |-> arms[1].n, sub |-> "", arms |-> arms, els |-> els]
+\* switch whose cases all run, one after the other (fallthrough); arm.n is the id of the case's closing
+\* `fallthrough;` / `break;` line, which is a statement of the case body like any other
+N(n)          == [k |-> "nop",  n |-> n, sub |-> "", arms |-> <<>>, els |-> <<>>]
+SW(n, arms)   == [k |-> "sw",   n |-> n, sub |-> "", arms |-> arms, els |-> <<>>]
 
 Lifecycle == <<"vcl_recv", "vcl_error", "vcl_deliver", "vcl_log">>
 
@@ -104,7 +108,15 @@ P5 == [ n |-> 16, fns |-> {"f2"},
                    vcl_deliver |-> << S(15) >>,
                    vcl_log     |-> << S(16) >> ] ]
 
-Programs == [ P1 |-> P1, P2 |-> P2, P3 |-> P3, P4 |-> P4, P5 |-> P5 ]
+\* a switch with two cases joined by fallthrough, a call inside a case
+P6 == [ n |-> 15, fns |-> {},
+        subs |-> [ vcl_recv    |-> << S(1), SW(2, << A(5, TRUE, << S(3), C(4, "w1") >>), A(8, TRUE, << S(6), S(7) >>) >>), S(9), E(10) >>,
+                   w1          |-> << S(11), S(12) >>,
+                   vcl_error   |-> << S(13) >>,
+                   vcl_deliver |-> << S(14) >>,
+                   vcl_log     |-> << S(15) >> ] ]
+
+Programs == [ P1 |-> P1, P2 |-> P2, P3 |-> P3, P4 |-> P4, P5 |-> P5, P6 |-> P6 ]
 
 VARIABLES prog, bps, top, stack, mode, hist, exec, mex, done
 vars == <<prog, bps, top, stack, mode, hist, exec, mex, done>>
@@ -117,10 +129,12 @@ CmdsNow == IF Len(hist) < MaxStops THEN Cmds ELSE {"Pass"}
 (* ------------------- requirement: execution sequence ------------------- *)
 \* Denotational execution of a block: the sequence of debugger-visible visits (block statements and
 \* evaluated else-if arms) with their call depth, and how the block ended.
-RECURSIVE DBlock(_, _, _, _), DArms(_, _, _, _, _)
+RECURSIVE DBlock(_, _, _, _), DArms(_, _, _, _, _), DCases(_, _, _, _, _)
 DStmt(p, st, d, t) ==
   LET me == << [n |-> st.n, d |-> d, top |-> t, k |-> st.k] >> IN
   CASE st.k = "set"  -> [s |-> me, e |-> "none"]
+    [] st.k = "nop"  -> [s |-> me, e |-> "none"]
+    [] st.k = "sw"   -> LET r == DCases(p, st, 1, d, t) IN [s |-> me \o r.s, e |-> r.e]
     [] st.k = "ret"  -> [s |-> me, e |-> "ret"]
     [] st.k = "retv" -> [s |-> me, e |-> "ret"]
     [] st.k = "err"  -> [s |-> me, e |-> "err"]
@@ -135,6 +149,11 @@ DArms(p, st, ai, d, t) ==
            me  == IF ai = 1 THEN <<>> ELSE << [n |-> arm.n, d |-> d, top |-> t, k |-> "elif"] >>
        IN  IF arm.c THEN LET r == DBlock(p, arm.body, d, t) IN [s |-> me \o r.s, e |-> r.e]
            ELSE LET r == DArms(p, st, ai + 1, d, t) IN [s |-> me \o r.s, e |-> r.e]
+DCases(p, st, ai, d, t) ==
+  IF ai > Len(st.arms) THEN [s |-> <<>>, e |-> "none"]
+  ELSE LET r == DBlock(p, st.arms[ai].body \o << N(st.arms[ai].n) >>, d, t) IN
+       IF r.e # "none" THEN r
+       ELSE LET q == DCases(p, st, ai + 1, d, t) IN [s |-> r.s \o q.s, e |-> q.e]
 DBlock(p, b, d, t) ==
   IF b = <<>> THEN [s |-> <<>>, e |-> "none"]
   ELSE LET r == DStmt(p, Head(b), d, t) IN
@@ -187,13 +206,15 @@ Record(f, o, n, k) ==
   /\ hist' = IF o.stop THEN Append(hist, [n |-> n, why |-> o.why, cmd |-> o.cmd, pos |-> Len(exec) + 1]) ELSE hist
 
 Visit ==
-  /\ stack # <<>> /\ Top(stack).t # "sel" /\ Top(stack).pc <= Len(Top(stack).b)
+  /\ stack # <<>> /\ Top(stack).t \notin {"sel", "swq"} /\ Top(stack).pc <= Len(Top(stack).b)
   /\ LET f == Top(stack)  st == f.b[f.pc] IN
      \E o \in Outcomes(st.n, f.ds) :
        LET og   == Og(f, o)
            base == [stack EXCEPT ![Len(stack)] = [f EXCEPT !.pc = @ + 1, !.ds = o.ds, !.og = og]] IN
        /\ Record(f, o, st.n, st.k)
-       /\ stack' = CASE st.k = "set"  -> base
+       /\ stack' = CASE st.k \in {"set", "nop"} -> base
+                     \* ProcessSwitchStatement hands every case body the state the switch statement itself got
+                     [] st.k = "sw"   -> Append(base, [SelFrame(st, o.ds, og, f.d) EXCEPT !.t = "swq"])
                      [] st.k = "call" -> Append(base, IF o.ds = "In" THEN Frame("sub", Body(st.sub), "In", "", f.d + 1)
                                                       ELSE Frame("sub", Body(st.sub), "Out", "call", f.d + 1))
                      [] st.k = "setf" -> Append(base, Frame("fn", Body(st.sub), "Pass", "", f.d + 1))
@@ -220,8 +241,16 @@ Sel ==
                                  ELSE [f EXCEPT !.ai = @ + 1, !.ds = o.ds, !.og = Og(f, o)]]
   /\ UNCHANGED <<prog, bps, top, done>>
 
+SwNext ==      \* the next case body (fallthrough), as a block of its own that starts from the switch's state
+  /\ stack # <<>> /\ Top(stack).t = "swq"
+  /\ LET f == Top(stack) IN
+     IF f.ai > Len(f.arms) THEN stack' = Front(stack)
+     ELSE stack' = Append([stack EXCEPT ![Len(stack)] = [f EXCEPT !.ai = @ + 1]],
+                          Frame("blk", f.arms[f.ai].body \o << N(f.arms[f.ai].n) >>, f.ds, f.og, f.d))
+  /\ UNCHANGED <<prog, bps, top, mode, hist, exec, mex, done>>
+
 Pop ==
-  /\ stack # <<>> /\ Top(stack).t # "sel" /\ Top(stack).pc > Len(Top(stack).b)
+  /\ stack # <<>> /\ Top(stack).t \notin {"sel", "swq"} /\ Top(stack).pc > Len(Top(stack).b)
   /\ stack' = Front(stack)
   /\ UNCHANGED <<prog, bps, top, mode, hist, exec, mex, done>>
 
@@ -245,7 +274,7 @@ Init ==
   /\ bps \in BpSets(Programs[prog].n)
   /\ top = 0 /\ stack = <<>> /\ mode = "Pass" /\ hist = <<>> /\ exec = <<>> /\ mex = <<>> /\ done = FALSE
 
-Next == Visit \/ Sel \/ Pop \/ NextTop \/ Finish
+Next == Visit \/ Sel \/ SwNext \/ Pop \/ NextTop \/ Finish
 Spec == Init /\ [][Next]_vars
 
 (* ------------------------------ properties ----------------------------- *)
@@ -294,7 +323,7 @@ Dev(k) == LET c == DevRaw(k) IN [id |-> DevId(c), dev |-> c.dev, cmd |-> c.cmd, 
 TypeOK ==
   /\ mode \in Cmds /\ top \in 0..Len(Lifecycle) /\ done \in BOOLEAN
   /\ Len(stack) <= 12 /\ Len(mex) = Len(exec)
-  /\ \A i \in 1..Len(stack) : /\ stack[i].ds \in Cmds /\ stack[i].t \in {"sub", "fn", "blk", "sel"}
+  /\ \A i \in 1..Len(stack) : /\ stack[i].ds \in Cmds /\ stack[i].t \in {"sub", "fn", "blk", "sel", "swq"}
                               /\ (stack[i].ds = "Out") = (stack[i].og # "")
 
 \* debugging is transparent: the statements executed do not depend on breakpoints or commands
